@@ -28,17 +28,17 @@ TIERS = {
 MODES = ["ssa", "ssa", "ssa", "volume", "volume", "delay", "delay", "delay", "delayvolume"]
 
 
-def gen_case(case_seed, cfg):
+def gen_case(case_seed, cfg, modes=None, delays_in_plain=True, plain_delay_p=0.15, far_p=0.0):
     for attempt in range(50):
-        case = _gen_case(seeds.derive(case_seed, "attempt", attempt))
+        case = _gen_case(seeds.derive(case_seed, "attempt", attempt), modes or MODES, delays_in_plain, plain_delay_p, far_p)
         if netgen.bounded(case["model"]):
             return case
     return case
 
 
-def _gen_case(case_seed):
+def _gen_case(case_seed, modes, delays_in_plain=True, plain_delay_p=0.15, far_p=0.0):
     r = seeds.rng(case_seed, "gen")
-    mode = r.choice(MODES)
+    mode = r.choice(modes)
     stratum = r.choice(["random", "random", "random", "massaction", "absorb"])
     if stratum == "massaction":
         model = netgen.gen_open_network(r, allow=("massaction",))
@@ -63,8 +63,8 @@ def _gen_case(case_seed):
                            target_events=400 if stratum == "absorb" else None)
     dt = grid[1] - grid[0]
     if mode in ("delay", "delayvolume"):
-        netgen.add_delays(r, model, dt, grid[-1], p=0.7, markers=not safe_pref)
-    elif r.random() < 0.15:
+        netgen.add_delays(r, model, dt, grid[-1], p=0.7, markers=not safe_pref, far=(r.random() < far_p))
+    elif delays_in_plain and r.random() < plain_delay_p:
         # simulators without delay support apply both parts at the firing time
         netgen.add_delays(r, model, dt, grid[-1], p=0.5, delayed_reactants=safe_pref)
     # consumers with non-mass-action rates are only legal in safe mode (judged after the delay decoration, which can
